@@ -260,6 +260,9 @@ class RefDC:
             entry["denied"] = "access"
             return E_ACCESSDENIED, None
         if "envelope_override" in self.byz:  # boundary values a misbehaving (or future) server could put in the fields
-            env = dict(env, **self.byz["envelope_override"])
+            n_first = self.byz.get("override_first_n")
+            self._overridden = getattr(self, "_overridden", 0) + 1
+            if n_first is None or self._overridden <= n_first:  # (optionally only the first n replies are damaged)
+                env = dict(env, **self.byz["envelope_override"])
         entry["envelope_fields"] = env
         return 0, gkdi.pack_envelope(env)
